@@ -153,8 +153,12 @@ pub fn run(rep: &mut Report) {
                 }
                 (ba, sk.bits())
             } else {
+                // A through 1-3 slice calls (streaming in batches), B item-wise
                 let mut ska = make_usk(kind, m);
-                ska.sketch_slice(&a);
+                let nb = rng.random_range(1..=3usize).min(a.len());
+                for c in a.chunks(a.len().div_ceil(nb)) {
+                    ska.sketch_slice(c);
+                }
                 let mut skb = make_usk(kind, m);
                 for x in &b {
                     skb.sketch(*x);
